@@ -12,7 +12,7 @@
      and observes the self-check of every pool object after every step. *)
 From AS Require Import Base Effects.
 From AS.Model Require Import Sgr Tokenizer Table Ops Render Scrub Parse StrOps FormatSpec Exec.
-From AS.Proofs Require Import TableProofs SliceProofs PadProofs ApplyProofs RemoveProofs ConcatProofs ExecProofs InvariantProofs EditProofs.
+From AS.Proofs Require Import TableProofs SliceProofs PadProofs ApplyProofs RemoveProofs ConcatProofs ExecProofs InvariantProofs EditProofs ReachableCorollaries.
 
 Theorem C09_error_unchanged : forall p op e, exec p op = Err e -> fst (step_out p op) = p.
 Proof. exact step_out_err. Qed.
@@ -48,6 +48,22 @@ Theorem C09_self_check : forall p, reachable_ok p ->
 Proof. exact reachable_ok_self_check. Qed.
 Print Assumptions C09_reachable.
 Print Assumptions C09_self_check.
+
+(* consequently every value of every reachable pool satisfies the hypotheses under which C04 - C07, C11,
+   C12, C16, C17 (and the structural premises of C01 / C03) are proved: those theorems speak about every
+   reachable value, as the property statements do *)
+Theorem C09_reachable_value : forall p o, reachable_ok p -> In o (objs p) ->
+  let s := o_val o in
+  WFv s /\ ConcatProofs.WF s /\ RemoveProofs.rm_wf s /\ PadProofs.wf s
+  /\ ssorted (tbl s) /\ keys_le (tbl s) (length (base s)) /\ strict_ok (tbl s) = true
+  /\ ApplyProofs.nodup_active (tbl s) /\ final_active (tbl s) = []
+  /\ ConcatProofs.coherent (tbl s) /\ InvariantProofs.ids_below (next_id p) (tbl s).
+Proof. exact reachable_value. Qed.
+Theorem C09_reachable_pair : forall p o1 o2, reachable_ok p -> In o1 (objs p) -> In o2 (objs p) ->
+  ConcatProofs.coherent_pair (o_val o1) (o_val o2).
+Proof. exact reachable_pair_coherent. Qed.
+Print Assumptions C09_reachable_value.
+Print Assumptions C09_reachable_pair.
 
 (* values built from ANY input string are well formed *)
 Theorem C09_parse_wf : forall w nid, WFv (fst (parse w nid)).
